@@ -1157,7 +1157,7 @@ def _gather(trace, args, avals, params, prim):
         for k, od in enumerate(off_operand_dims):
             full[od] = _arith("add", full[od], o[k])
 
-        symbolic_path = [False]
+        symbolic_path = [False]  # reset per output element
 
         def pick(dim, prefix):
             if dim == operand.ndim:
@@ -1186,6 +1186,7 @@ def _gather(trace, args, avals, params, prim):
                         _cmp("eq", i, k), pick(dim + 1, prefix + [k]), acc
                     )
                 return acc
+            symbolic_path[0] = True
             return sym_index(lambda k: pick(dim + 1, prefix + [k]), operand.shape[dim], i)
 
         out[oidx] = pick(0, [])
@@ -1390,10 +1391,16 @@ def _cond(trace, args, avals, params, prim):
 # ----------------------------------------------------------------------------------
 # PRNG: provenance terms
 # ----------------------------------------------------------------------------------
-KeyS = z3.DeclareSort("Key")
-SEED = z3.Function("seedkey", z3.IntSort(), KeyS)
-SPLIT = z3.Function("split", KeyS, z3.IntSort(), KeyS)
-FOLD = z3.Function("fold_in", KeyS, z3.IntSort(), KeyS)
+# keys form a free term algebra (z3 algebraic datatype: constructors are injective and disjoint), so
+# "two provenance terms are different for every seed" is something the solver can decide
+_K = z3.Datatype("Key")
+_K.declare("seedkey", ("seed", z3.IntSort()))
+_K.declare("split", ("parent", _K), ("index", z3.IntSort()))
+_K.declare("fold_in", ("fparent", _K), ("data", z3.IntSort()))
+KeyS = _K.create()
+SEED = KeyS.seedkey
+SPLIT = KeyS.split
+FOLD = KeyS.fold_in
 UNI = z3.Function("uni", KeyS, z3.IntSort(), z3.RealSort())
 UNI_TERMS: list = []
 BITS_KEYS: list = []  # every key term that reached random_bits (with multiplicity)
